@@ -380,7 +380,8 @@ def main_check(pid, modname, tier, seed):
     t0 = time.time()
     mod = importlib.import_module(modname)
     items = mod.items(tier)
-    budget = float(os.environ.get("VERIF_BUDGET_S", "1200" if tier == "quick" else "3000"))
+    # wall-clock budget of the whole run: items not started by then are reported as not explored
+    budget = float(os.environ.get("VERIF_BUDGET_S", "480" if tier == "quick" else "1500"))
     for it in items:
         it.setdefault("mod", modname)
         it["pid"] = pid
